@@ -599,7 +599,7 @@ def leaves(l, base=0, cap=64):
 # --------------------------------------------------------------------------------
 # ownership of type objects: which objects may a function modify?
 # --------------------------------------------------------------------------------
-FRESH, SHARED, TAG = 'fresh', 'shared', 'tag'
+FRESH, SHARED, TAG, UNKNOWN = 'fresh', 'shared', 'tag', 'unknown'
 
 
 def _norm_t(t):
@@ -612,7 +612,8 @@ class Ownership:
     A pointer value is described by a set of atoms: FRESH (an object this activation allocated: calloc/malloc, the result of a
     function that only returns such objects, or the address of a local), ('param', i) (what the i-th parameter pointed to on entry,
     or something reached from it), TAG (the object a tag lookup `&scope->tags` yields: the struct/union type a definition completes),
-    SHARED (anything else: a global, the value of a `Type *` field, the result of any other call). Assignments to locals are strong
+    SHARED (anything else: a global, the value of a `Type *` field, the result of any other call), UNKNOWN (what a local whose address
+    was taken, or the target of a pointer to a pointer, holds: not tracked). Assignments to locals are strong
     updates, control flow joins by union, loops run to a fixpoint. A load of a pointer to a protected record yields SHARED when the
     pointee is `share_loads` (type objects form a shared graph) and the provenance of the object loaded from otherwise (a member list
     belongs to its type object). Per function the analysis yields
@@ -683,6 +684,12 @@ class Ownership:
             if self._is_ptr(p):
                 st[p.id] = frozenset([('param', i)])
         self.pidx = {p.id: i for i, p in enumerate(params)}
+        self.escaped = set()
+        for n in fd.walk():
+            if n.kind == 'UnaryOperator' and n.opcode == '&':
+                x = n.inner[0].strip()
+                if x.kind == 'DeclRefExpr' and x.ref_id in self.locals and self._is_ptr(x):
+                    self.escaped.add(x.ref_id)
         body = [c for c in fd.inner if c.kind == 'CompoundStmt']
         self.labels = {}
         has_goto = any(n.kind in ('GotoStmt', 'LabelStmt', 'IndirectGotoStmt') for n in fd.walk())
@@ -940,7 +947,8 @@ class Ownership:
                 return frozenset()
             if n.ref_id in self.locals:
                 if self._is_ptr(n):
-                    return st.get(n.ref_id, frozenset())
+                    v = st.get(n.ref_id, frozenset())
+                    return (v | frozenset([UNKNOWN])) if n.ref_id in self.escaped else v
                 return frozenset()
             return frozenset([SHARED]) if self._is_ptr(n) else frozenset()
         if k == 'MemberExpr':
@@ -961,7 +969,7 @@ class Ownership:
                 return self._object(I[0], st)
             if op == '*':
                 self._eval(I[0], st)
-                return frozenset([SHARED]) if self._is_ptr(n) else frozenset()
+                return frozenset([UNKNOWN]) if self._is_ptr(n) else frozenset()
             if op in ('++', '--'):
                 v = self._eval(I[0], st)
                 self._assign_target(I[0], st, None)
